@@ -2,7 +2,7 @@
    and the specification evaluated on the implementation's own episodes.
    A recorded episode in which env.step raised inside its last step carries the final mask [] (the flag). *)
 From Coq Require Import ZArith List Bool Lia Arith.
-From RL4CO Require Import Base.Num Base.EnvSig Spec.Routes Env.SVRP Env.SVRPProofs Harness.HEnv.
+From RL4CO Require Import Base.Num Base.EnvSig Spec.Routes Env.SVRP Env.SVRPProofs Harness.HEnv Harness.HBook.
 Import ListNotations.
 Open Scope Z_scope.
 
@@ -80,3 +80,39 @@ Definition c06_verdict (i : svrp_inst) (acts : list nat) (verdict : bool) : Z :=
 Definition check_C06 (c : svrp_case) : Z := c06_verdict (c_inst c) (trace_actions (c_trace c)) (c_checker c).
 Definition check_C06_sol (c : svrp_inst * list nat * bool) : Z :=
   match c with (i, acts, verdict) => c06_verdict i acts verdict end.
+
+(* ---------------------------------------------------------------- bookkeeping (C02 / C04, see Harness/HBook.v)
+   keys of the env's step output compared after every step (up to a step inside which the real code raises), in this
+   order: current_node (= the action just taken), current_tech, visited (bit j = node j) *)
+Definition book_obs (s : svrp_st) : list Z := [Z.of_nat (scur s); Z.of_nat (stech s); bitsZ (svis s)].
+Definition book_kinds : list nat := [2; 0; 0]%nat.
+Definition svrp_book := (svrp_inst * list Z * list Z * list (nat * list Z))%type.
+Definition check_book (c : svrp_book) : Z :=
+  match c with (i, tols, o0, tr) => book_check M i book_obs book_kinds tols o0 tr end.
+
+(* ---------------------------------------------------------------- history: found by the batched / padded checker stream of C06 (2026-10-02)
+   The FIRST repair of the checker (fix 9849631) only clamped the technician index to the last technician instead of
+   raising; a route that starts after MORE depot visits than there are technicians was thereby checked against the last
+   technician's skill and accepted, although no technician is left to drive it (Env/SVRPProofs.v [routes_okb]: a
+   non-empty route number k needs k < number of technicians).  Witness: three technicians, one customer, action list
+   0,0,0,1,0.  Signature of the finding: svrp/<variant>: checker-accepts-infeasible-solution(route-after-the-last-technician).
+   Fix 335bbfb added "no customer after m or more depot visits"; the model of Env/SVRP.v follows it.  The clamp-only
+   loop is kept here as a record, with its refutation; the current model rejects the same witness. *)
+Fixpoint skill_loop_clamp_only (i : svrp_inst) (tech : nat) (seg : list nat) (acts : list nat) : bool :=
+  match acts with
+  | [] => true
+  | a :: r =>
+      if Nat.eqb a 0
+      then forallb (fun j => sskill i j <=? tskill i (Nat.min tech (sm_of i - 1))) seg && skill_loop_clamp_only i (S tech) [] r
+      else skill_loop_clamp_only i tech (a :: seg) r
+  end.
+Definition svrp_checker_clamp_only (i : svrp_inst) (acts : list nat) : bool := ssorted_ok i acts && skill_loop_clamp_only i 0 [] acts.
+
+Theorem svrp_checker_clamped_route_refuted :
+  exists i acts, svrp_wfb i = true /\ svrp_solvableb i = true /\
+    svrp_checker_clamp_only i acts = true /\ svrp_feasibleb i acts = false /\
+    svrp_checker true i acts = false.
+Proof.
+  exists {| techs := [1; 2; 3]; skills := [1]; tcosts := [1; 2; 3]; sdist := [] |}, [0; 0; 0; 1; 0]%nat.
+  vm_compute. repeat split; reflexivity.
+Qed.
